@@ -65,9 +65,16 @@ func cmdCheck(args []string) {
 	tier := fs.String("tier", "quick", "quick|thorough")
 	workers := fs.Int("workers", runtime.NumCPU(), "workers")
 	noReplay := fs.Bool("noreplay", false, "skip native replay (development)")
+	out := fs.String("outdir", "", "write evidence/replays/.gen below this directory instead of the verif dir")
 	fs.Parse(args)
+	outDir = *out
+	if outDir == "" {
+		outDir = *verif
+	}
 	os.Exit(runCheck(*repo, *verif, *prop, *tier, *workers, *noReplay))
 }
+
+var outDir string
 
 func runCheck(repo, verif, prop, tier string, workers int, noReplay bool) int {
 	t0 := time.Now()
@@ -100,7 +107,7 @@ func runCheck(repo, verif, prop, tier string, workers int, noReplay bool) int {
 	seed := 0
 	fmt.Sscan(os.Getenv("VERIF_SEED"), &seed)
 
-	os.RemoveAll(filepath.Join(verif, "replays", prop))
+	os.RemoveAll(filepath.Join(outDir, "replays", prop))
 	harnessDir := filepath.Join(verif, "harness")
 	prog, err := interp.Load(repo, harnessDir)
 	if err != nil {
@@ -204,7 +211,7 @@ func runCheck(repo, verif, prop, tier string, workers int, noReplay bool) int {
 			}
 			bins[key] = bin
 		}
-		rdir := filepath.Join(verif, "replays", prop)
+		rdir := filepath.Join(outDir, "replays", prop)
 		os.MkdirAll(rdir, 0o755)
 		var wg sync.WaitGroup
 		sem := make(chan struct{}, workers)
@@ -336,9 +343,15 @@ func writeReplay(dir, prop, tier string, v interp.Violation, run HRun, known map
 	return p
 }
 
+var (
+	instrOnce sync.Once
+	instrMap  map[string]string
+	instrErr  error
+)
+
 // buildReplayBinary compiles the package's test binary with the harness overlay.
 func buildReplayBinary(repo, verif string, prog *interp.Program, pkg string, race bool) (string, error) {
-	gen := filepath.Join(verif, ".gen")
+	gen := filepath.Join(outDir, ".gen")
 	os.MkdirAll(gen, 0o755)
 	ov, src, err := interp.BuildOverlay(filepath.Join(verif, "harness"), repo, true)
 	if err != nil {
@@ -362,6 +375,18 @@ func buildReplayBinary(repo, verif string, prog *interp.Program, pkg string, rac
 			return "", err
 		}
 		repl[filepath.Join(dir, "zz_verif_replay_test.go")] = gp
+	}
+	// instrumented copies of the repository sources (crash-window replay)
+	instrOnce.Do(func() {
+		os.RemoveAll(filepath.Join(gen, "instr"))
+		instrMap, instrErr = interp.InstrumentVFS(prog.Initial, repo, filepath.Join(gen, "instr"))
+	})
+	instr, err := instrMap, instrErr
+	if err != nil {
+		return "", err
+	}
+	for orig, cp := range instr {
+		repl[orig] = cp
 	}
 	ovJSON, _ := json.Marshal(map[string]any{"Replace": repl})
 	ovPath := filepath.Join(gen, "overlay.json")
@@ -419,7 +444,7 @@ func runReplay(repo, bin, pkg, replay string) (string, error) {
 
 func judgeReplay(v interp.Violation, out string, runErr error) (reproduced, diverged bool, diag map[string]any) {
 	diag = map[string]any{}
-	if strings.Contains(out, "VERIF-REPLAY-DIVERGED") {
+	if strings.Contains(out, "VERIF-REPLAY-DIVERGED") && !strings.Contains(out, "VERIF-ASSERT-FAIL") && !strings.Contains(out, "VERIF-PANIC") {
 		return false, true, diag
 	}
 	switch v.Kind {
@@ -568,8 +593,8 @@ func writeEvidence(verif, prop, tier string, seed int, spec PropSpec, runs []HRu
 		"assumptions": spec.Assume, "wall_s": wall.Seconds(), "violations": violations,
 	}
 	b, _ := json.MarshalIndent(ev, "", " ")
-	os.MkdirAll(filepath.Join(verif, "evidence"), 0o755)
-	os.WriteFile(filepath.Join(verif, "evidence", prop+".json"), b, 0o644)
+	os.MkdirAll(filepath.Join(outDir, "evidence"), 0o755)
+	os.WriteFile(filepath.Join(outDir, "evidence", prop+".json"), b, 0o644)
 }
 
 func cmdReplay(args []string) {
@@ -578,6 +603,7 @@ func cmdReplay(args []string) {
 	verif := fs.String("verif", "/verif", "verif dir")
 	file := fs.String("file", "", "replay json")
 	fs.Parse(args)
+	outDir = *verif
 	data, err := os.ReadFile(*file)
 	if err != nil {
 		fmt.Println("ENGINE-ERROR", err)
